@@ -374,3 +374,17 @@ def run(rep: Report, prog: Program, tier: str) -> None:
     # ---------------- C19-SIGNALING (= C14-ABSORB): a negotiation call resumed after close() cannot move signalingState away from closed
     from .common import import_rules
     import_rules(rep, prog, tier, PROP, "C19-SIGNALING", "C14", ["C14-ABSORB"], "signalingState stays closed after close() (rule C14-ABSORB)", 5)
+
+    # ---------------- C19-LATCH: RTCIceTransport.stop() marks the transport closed before it suspends, so that a start() racing with it is refused
+    rep.rule("C19-LATCH", "RTCIceTransport.stop() sets the closed state before its first await", min_instances=1)
+    istop = prog.func("rtcicetransport.RTCIceTransport.stop")
+    sets = [n for n in walk_no_nested(istop.node) if isinstance(n, ast.Call) and unparse(n.func).endswith("__setState") and n.args and isinstance(n.args[0], ast.Constant) and n.args[0].value == "closed"]
+    awaits_ = [n for n in walk_no_nested(istop.node) if isinstance(n, ast.Await)]
+    istart = prog.func("rtcicetransport.RTCIceTransport.start")
+    refuses = any(isinstance(n, ast.If) and "closed" in unparse(n.test) and any(isinstance(b, ast.Raise) for b in n.body) for n in walk_no_nested(istart.node))
+    if sets and awaits_ and min(x.lineno for x in sets) < min(x.lineno for x in awaits_) and refuses:
+        rep.ok("C19-LATCH", "RTCIceTransport.stop: closed before the first await; start() refuses a closed transport", sample=unparse(sets[0]))
+    else:
+        rep.fail(mk_finding(prog, PROP, "C19-LATCH", istop, sets[0] if sets else istop.node, "the ICE transport only becomes `closed` after stop() has suspended (or start() does not refuse a closed transport): "
+                            "the connection's __connect() task, which is never cancelled, can start ICE on a transport that is being torn down and is left running after close()",
+                            construct="closed state latched before suspending"))
